@@ -45,7 +45,21 @@ def acyclic(ctx):
     num = ctx.num
     fin, good = _acyclic_generating(orules, sk.V)
     if P.get("chart", "real") == "real":
-        # (c) block order compatible with the dependencies -- on every sub-shape, recursive ones included
+        # (c) block order compatible with the dependencies -- on every sub-shape, recursive ones included, and under
+        # several namings of the nonterminals (the DFS of the SCC decomposition follows set-iteration order)
+        for rn in P.get("renames", [None]):
+            ren = None
+            if rn:
+                mp = dict((a, tuple(b) if isinstance(b, list) else b) for a, b in rn)
+                ren = lambda x, mp=mp: mp.get(x, x)
+            g = make_cfg(ctx, sk, ws, rename=ren)
+            deps = g.dependency_graph()
+            bucket = deps.buckets
+            bad = [(r.head, y) for r in g.rules for y in r.body if bucket[r.head] > bucket[y]]
+            ctx.check(f"dependency blocks: a rule's head is never in a later block than its body symbols (naming {rn})", not bad, detail=str(bad[:3]), sig="blocks:order")
+            comps = {frozenset(c) for c in O.sccs(sorted(deps.N, key=repr), lambda x: [y for (h, y) in deps.E if h == x])}
+            ctx.check(f"dependency blocks are exactly the SCCs (naming {rn})", {frozenset(b) for b in deps.blocks} == comps,
+                      detail=f"blocks {[sorted(map(str, b)) for b in deps.blocks]}", sig="blocks:sccs")
         g = make_cfg(ctx, sk, ws)
         deps = g.dependency_graph()
         bucket = deps.buckets
@@ -239,6 +253,12 @@ def inductive(ctx):
 def jobs(tier, seed):
     out = []
     quick = tier == "quick"
+    import itertools as _it
+
+    scc3 = grammar("G-SCC3")
+    nts3 = sorted({h for h, _ in scc3.rules})
+    names = [[(X, n) for X, n in zip(nts3, perm)] for perm in _it.permutations([1, 2, 3])] + [[(X, n) for X, n in zip(nts3, perm)] for perm in _it.permutations(["P", "Q", "R"])]
+    out.append(dict(case="acyclic", params=dict(shape="G-SCC3", chart="real", renames=names, fixed={str(k): 1 for k in range(scc3.K)})))
     for sh in (["G-FIN", "G-DUP", "G-WIDE", "G-NULL3", "G-HL2", "G-SCC3"] if quick else ["G-FIN", "G-DUP", "G-WIDE", "G-NULL3", "G-HL2", "G-SCC3", "G-NU", "G-LR", "G-DEAD", "G-TRI", "G-MUT", "G-MB", "G-2CYC", "G-UC"]):
         sk = grammar(sh)
         out += split_job(dict(case="acyclic", params=dict(shape=sh, chart="real")), [0] if sk.K >= 7 else [])
